@@ -7,9 +7,11 @@ import Cpf.Query.Cli
 import Cpf.Query.WF
 import Cpf.Query.Console
 import Cpf.Query.Output
+import Cpf.Scan.Build
 import Cpf.Generated.Grammar
 
 open Cpf.Query Cpf.Go Cpf.Generated
+open Cpf.Scan (T Bytes)
 
 def unescape (s : String) : String :=
   let rec go : List Char → List Char → List Char
@@ -36,6 +38,37 @@ def renderParsed (q : ParsedQuery) : List String :=
   ++ [toString q.invocations.length] ++ q.invocations.flatMap (fun i =>
         [i.name] ++ params i.args ++ [i.matched.name] ++ params i.matched.params ++ [i.matched.body])
   ++ [toString q.condition.length] ++ q.condition ++ [q.expression]
+
+def hexVal (c : Char) : Nat :=
+  if '0' ≤ c ∧ c ≤ '9' then c.toNat - '0'.toNat
+  else if 'a' ≤ c ∧ c ≤ 'f' then c.toNat - 'a'.toNat + 10
+  else if 'A' ≤ c ∧ c ≤ 'F' then c.toNat - 'A'.toNat + 10 else 0
+
+def unhex (s : String) : Bytes :=
+  let rec go : List Char → List UInt8 → List UInt8
+    | a :: b :: r, acc => go r (UInt8.ofNat (hexVal a * 16 + hexVal b) :: acc)
+    | _, acc => acc.reverse
+  go s.toList []
+
+def hexDigit (n : Nat) : Char := if n < 10 then Char.ofNat (48 + n) else Char.ofNat (87 + n)
+
+def tohex (b : Bytes) : String :=
+  String.ofList (b.flatMap (fun x => [hexDigit (x.toNat / 16), hexDigit (x.toNat % 16)]))
+
+/-- parse a tree from its flat preorder rendering: ty, field, sb, eb, sr, sc, named, nchildren -/
+partial def parseTree : List String → Option (T × List String)
+  | ty :: field :: sb :: eb :: sr :: sc :: named :: nc :: rest =>
+      let rec kids (k : Nat) (r : List String) (acc : List T) : Option (List T × List String) :=
+        match k with
+        | 0 => some (acc.reverse, r)
+        | k + 1 =>
+            match parseTree r with
+            | some (c, r') => kids k r' (c :: acc)
+            | none => none
+      match kids nc.toNat! rest [] with
+      | some (cs, r) => some (T.mk ty field sb.toNat! eb.toNat! sr.toNat! sc.toNat! (named == "1") cs, r)
+      | none => none
+  | _ => none
 
 def handle (fields : List String) : List String :=
   match fields with
@@ -73,6 +106,18 @@ def handle (fields : List String) : List String :=
             | .val e _ => "val:" ++ e)
       | .diag m => ["diag", m]
       | .panic m => ["panic", m]
+  | "scan-model" :: file :: srcHex :: tree =>
+      match parseTree tree with
+      | none => ["bad-tree"]
+      | some (t, _) =>
+          match Cpf.Scan.buildGraph t (unhex srcHex) (Cpf.Scan.str file) with
+          | .ok st =>
+              let ents := Cpf.Scan.dedup st.ents
+              ["ok", toString st.ents.length, toString ents.length]
+                ++ ents.flatMap (fun e => [e.kind, toString e.line, toString e.sb, toString e.eb, tohex e.pre])
+                ++ [toString st.edges.length] ++ st.edges.flatMap (fun e => [tohex e.1, tohex e.2])
+          | .diag m => ["diag", m]
+          | .panic m => ["panic", m]
   | ["cond", q] =>
       match prepare q.toList with
       | .ok p =>
